@@ -387,3 +387,274 @@ Proof.
   intros H1 H2 H3 H4 H5 Hc. rewrite (settle_one_rm_call m serial c r rest) by assumption. cbv zeta.
   cbn [ms set]. rewrite Hc. reflexivity.
 Qed.
+
+(* ---------------------------------------------------------------- (f) at most one reply per step *)
+(* a potential argument: [weight] = replies with serial [s0] already output to [c0] + 1 if [s0] is
+   still pending at [c0].  No function of the work loop and no handler (except the immediate
+   InvalidService answer, treated separately) increases it: every reply the broker makes up or
+   forwards is paired with the removal of the serial from the caller's pending map. *)
+Definition is_rep (c0 : conn) (s0 : N) (o : out) : bool := is_reply_to s0 o.1.2 && bool_decide (o.1.1 = c0).
+Definition nrep (c0 : conn) (s0 : N) (l : list out) : nat := length (List.filter (is_rep c0 s0) l).
+Definition pend (c0 : conn) (s0 : N) (s : state) : nat :=
+  match conns s !! c0 with
+  | Some cs => if bool_decide (is_Some (cs_calls cs !! s0)) then 1 else 0
+  | None => 0
+  end.
+Definition weight (c0 : conn) (s0 : N) (m : M) : nat := (nrep c0 s0 (mo m) + pend c0 s0 (ms m))%nat.
+Definition Pot (c0 : conn) (s0 : N) (n : nat) (m : M) : Prop := (weight c0 s0 m <= n)%nat.
+
+(* the count in the vocabulary of Run.v *)
+Lemma nrep_outs_to c0 s0 l : nrep c0 s0 l = length (List.filter (is_reply_to s0) (outs_to c0 l)).
+Proof.
+  unfold nrep, outs_to. induction l as [|o l IH]; cbn; [reflexivity|]. unfold is_rep at 1.
+  destruct (bool_decide (o.1.1 = c0)); cbn; [|rewrite andb_false_r; exact IH].
+  rewrite andb_true_r. destruct (is_reply_to s0 o.1.2); cbn; rewrite IH; reflexivity.
+Qed.
+
+Lemma nrep_app c0 s0 l1 l2 : nrep c0 s0 (l1 ++ l2) = (nrep c0 s0 l1 + nrep c0 s0 l2)%nat.
+Proof. unfold nrep. rewrite list_filter_app, app_length. reflexivity. Qed.
+
+Lemma pend_le_1 c0 s0 s : (pend c0 s0 s <= 1)%nat.
+Proof. unfold pend. destruct (conns s !! c0) as [cs|]; [destruct (bool_decide _)|]; lia. Qed.
+
+Lemma Pot_snoc_other c0 s0 n m o m' :
+  is_rep c0 s0 o = false -> mo m' = mo m ++ [o] -> ms m' = ms m -> Pot c0 s0 n m -> Pot c0 s0 n m'.
+Proof.
+  unfold Pot, weight. intros Ho Hm Hs H. rewrite Hm, Hs, nrep_app. unfold nrep at 2. cbn. rewrite Ho. cbn. lia.
+Qed.
+
+Lemma Pot_conns_delete c0 s0 n m c m' :
+  mo m' = mo m -> conns (ms m') = delete c (conns (ms m)) -> Pot c0 s0 n m -> Pot c0 s0 n m'.
+Proof.
+  unfold Pot, weight, pend. intros Hm Hs H. rewrite Hm, Hs. destruct (decide (c0 = c)) as [->|Hne].
+  - rewrite lookup_delete. lia.
+  - rewrite lookup_delete_ne by congruence. exact H.
+Qed.
+
+(* the paired step: the serial leaves the caller's pending map, the reply may be appended *)
+Lemma Pot_reply c0 s0 n m c cs serial p r from m' (sent : bool) :
+  conns (ms m) !! c = Some cs -> cs_calls cs !! serial = Some p ->
+  conns (ms m') = <[c := cs <| cs_calls ::= delete serial |>]> (conns (ms m)) ->
+  mo m' = mo m ++ (if sent then [(c, CallFunctionReply serial r, from)] else []) ->
+  Pot c0 s0 n m -> Pot c0 s0 n m'.
+Proof.
+  unfold Pot, weight, pend. intros Hc Hp Hs Hm H. rewrite Hm, Hs, nrep_app.
+  destruct (decide (c = c0)) as [->|Hne].
+  - rewrite lookup_insert. rewrite Hc in H. cbn [cs_calls set].
+    destruct (decide (serial = s0)) as [->|Hns].
+    + rewrite lookup_delete. rewrite (bool_decide_eq_true_2 (is_Some (cs_calls cs !! s0))) in H by (rewrite Hp; eauto).
+      rewrite (bool_decide_eq_false_2 (is_Some None)) by (intros [? ?]; discriminate).
+      assert (nrep c0 s0 (if sent then [(c0, CallFunctionReply s0 r, from)] else []) <= 1)%nat by (destruct sent; unfold nrep; cbn; [destruct (is_rep _ _ _); cbn|]; lia).
+      lia.
+    + rewrite lookup_delete_ne by congruence.
+      assert (E : nrep c0 s0 (if sent then [(c0, CallFunctionReply serial r, from)] else []) = 0%nat).
+      { destruct sent; [|reflexivity]. unfold nrep, is_rep. cbn.
+        rewrite (bool_decide_eq_false_2 (serial = s0)) by exact Hns. reflexivity. }
+      rewrite E. lia.
+  - rewrite lookup_insert_ne by congruence.
+    assert (E : nrep c0 s0 (if sent then [(c, CallFunctionReply serial r, from)] else []) = 0%nat).
+    { destruct sent; [|reflexivity]. unfold nrep, is_rep. cbn. rewrite (bool_decide_eq_false_2 (c = c0)) by exact Hne.
+      rewrite andb_false_r. reflexivity. }
+    rewrite E. lia.
+Qed.
+
+(* leaf tactic for [Pot]: convertible, or a non-reply output appended, or the paired reply step *)
+Ltac leaf_pot :=
+  idtac;
+  first
+    [ match goal with H : Pot ?c ?s ?n ?m |- Pot ?c ?s ?n _ => exact H end
+    | match goal with |- Pot ?c ?s ?n (set mo _ ?x) =>
+        eapply (Pot_snoc_other c s n x); [|reflexivity|reflexivity|leaf_pot]; reflexivity end
+    | match goal with |- Pot ?c ?s ?n (set mo _ (set _ _ ?x)) =>
+        eapply (Pot_reply c s n x _ _ _ _ _ _ _ true); [eassumption|eassumption|reflexivity|reflexivity|leaf_pot] end
+    | match goal with |- Pot ?c ?s ?n (push_remove (set _ _ ?x) _ _) =>
+        eapply (Pot_reply c s n x _ _ _ _ CRAborted None _ false);
+        [eassumption|eassumption|reflexivity|cbn; rewrite app_nil_r; reflexivity|leaf_pot] end
+    | match goal with |- ?P (push_remove ?x _ _) => change (P x) end
+    | match goal with |- ?P (set _ _ ?x) => change (P x) end ].
+
+Section PotTraversal.
+  Context (c0 : conn) (s0 : N) (n : nat).
+  Local Notation P := (Pot c0 s0 n).
+
+  Lemma remove_end_pot m k e : P m -> oprop P (remove_end m k e).
+  Proof. intros H. unfold remove_end. repeat prop_step leaf_pot. Qed.
+
+  Lemma remove_service_pot m k : P m -> oprop P (remove_service m k).
+  Proof. intros H. unfold remove_service. repeat prop_step leaf_pot. Qed.
+
+  Lemma remove_object_pot m k : P m -> oprop P (remove_object m k).
+  Proof.
+    intros H. unfold remove_object.
+    repeat first [ match goal with |- oprop _ (remove_service _ _) => apply remove_service_pot end
+                 | prop_step leaf_pot ]; assumption.
+  Qed.
+
+  Lemma remove_listener_pot m k : P m -> P (remove_listener m k).
+  Proof. intros H. unfold remove_listener. destruct (listeners (ms m) !! k); exact H. Qed.
+
+  Lemma bus_pot m ev : P m -> oprop P (bus m ev).
+  Proof. intros H. unfold bus. repeat prop_step leaf_pot. Qed.
+
+  Lemma shutdown_conn_pot m c sd : P m -> oprop P (shutdown_conn m c sd).
+  Proof.
+    intros H. unfold shutdown_conn. destruct (conns (ms m) !! c) as [cs|] eqn:Hc; [|exact H].
+    set (m1 := if sd && cs_alive cs then _ else _).
+    assert (H1 : P m1).
+    { assert (H0 : P (m <| ms; conns ::= delete c |>)) by (eapply Pot_conns_delete; [| |exact H]; reflexivity).
+      subst m1. destruct (sd && cs_alive cs); [|exact H0].
+      eapply Pot_snoc_other; [|reflexivity|reflexivity|exact H0]; reflexivity. }
+    clearbody m1.
+    repeat first
+      [ match goal with
+        | |- oprop _ (remove_object _ _) => apply remove_object_pot
+        | |- oprop _ (remove_end _ _ _) => apply remove_end_pot
+        | |- Pot _ _ _ (remove_listener _ _) => apply remove_listener_pot
+        end
+      | prop_step leaf_pot ]; assumption.
+  Qed.
+
+  Lemma abort_call_pot m b callee : P m -> oprop P (abort_call m b callee).
+  Proof. intros H. unfold abort_call. repeat prop_step leaf_pot. Qed.
+End PotTraversal.
+
+Section PotSettle.
+  Context (c0 : conn) (s0 : N) (n : nat).
+  Local Notation P := (Pot c0 s0 n).
+
+  Lemma settle_one_pot m r : P m -> settle_one m = Some r -> oprop P r.
+  Proof.
+    intros H. unfold settle_one.
+    repeat match goal with
+           | |- match ?l with [] => _ | _ :: _ => _ end = Some _ -> _ => destruct l as [|? ?]
+           | |- (let '(_, _) := ?p in _) = Some _ -> _ => destruct p
+           end; try discriminate; intros [= <-];
+      repeat first
+        [ match goal with
+          | |- oprop _ (shutdown_conn _ _ _) => apply shutdown_conn_pot
+          | |- oprop _ (abort_call _ _ _) => apply abort_call_pot
+          | |- oprop _ (bus _ _) => apply bus_pot
+          end
+        | prop_step leaf_pot ]; try exact H.
+  Qed.
+
+  Lemma settle_pot fuel : forall m, P m -> oprop P (settle fuel m).
+  Proof.
+    induction fuel as [|fuel IH]; intros m H; cbn [settle];
+      destruct (settle_one m) as [r|] eqn:E; try exact H;
+      pose proof (settle_one_pot m r H E) as Hr; destruct r; cbn in Hr |- *; trivial; apply IH; assumption.
+  Qed.
+End PotSettle.
+
+(* the handlers *)
+Ltac hp_step :=
+  first
+    [ match goal with
+      | |- oprop _ (remove_object _ _) => apply remove_object_pot
+      | |- oprop _ (remove_service _ _) => apply remove_service_pot
+      | |- oprop _ (remove_end _ _ _) => apply remove_end_pot
+      | |- Pot _ _ _ (remove_listener _ _) => apply remove_listener_pot
+      end
+    | prop_step leaf_pot ].
+
+Lemma oprop_refail (P : M -> Prop) r :
+  oprop P r -> oprop P (match r with Done m3 => Fail m3 | Fail a => Fail a | Panic site => Panic site end).
+Proof. destruct r; exact id. Qed.
+
+(* every handler except the two call requests keeps the potential *)
+Lemma handle_pot c0 s0 n m c x f b :
+  (match x with CallFunction _ _ _ _ | CallFunction2 _ _ _ _ _ => False | _ => True end) ->
+  Pot c0 s0 n m -> oprop (Pot c0 s0 n) (handle m c x f b).
+Proof.
+  intros Hx H. unfold handle. destruct (conns (ms m) !! c) as [cs|] eqn:Hc; [|exact H].
+  destruct x; try contradiction; clear Hx;
+    unfold gate, ver_of, create_service_impl; cbv zeta beta; try (rewrite Hc; cbn [fmap option_fmap option_map]);
+    try (solve [repeat hp_step; try assumption]).
+  (* ClaimChannelEnd: the reply's failure is returned after the other end's owner was told *)
+  destruct (chans (ms m) !! c1) as [ch|]; [|repeat hp_step; assumption].
+  destruct (chan_claim ch c e) as [r|ch' other r|site]; [repeat hp_step; assumption| |exact I].
+  destruct (send _ c (ClaimChannelEndReply serial r) None) as [m2|m2|] eqn:Es; [| |exact I].
+  - apply send_Done in Es as [-> _]. repeat hp_step; assumption.
+  - apply send_Fail in Es as [-> _]. apply oprop_refail. repeat hp_step; assumption.
+Qed.
+
+(* the call requests: either no reply is output at all, or exactly the immediate InvalidService
+   answer, and then nothing is left to do for the work loop *)
+Lemma call_impl_post c0 s0 s c serial sc fn fver v bs :
+  match call_impl (m_init s) c serial sc fn fver v bs with
+  | Done m => nrep c0 s0 (mo m) = 0%nat \/ ((nrep c0 s0 (mo m) <= 1)%nat /\ mw m = work0)
+  | Fail m => nrep c0 s0 (mo m) = 0%nat
+  | Panic _ => True
+  end.
+Proof.
+  unfold call_impl. cbn [ms m_init]. destruct (svc_by_cookie s sc) as [[k sv]|].
+  - destruct (owner_of_svc s k) as [callee|]; [|exact I].
+    destruct (conns s !! c) as [cs|]; [|left; reflexivity].
+    destruct (pick_serial s bs) as [[b nxt]|]; [|exact I].
+    destruct (bool_decide (is_Some (cs_calls cs !! serial))); [reflexivity|].
+    cbn [ms set]. destruct (svcs _ !! k) as [sv'|]; [|exact I].
+    destruct (conns _ !! callee) as [ccs|]; [|exact I].
+    destruct (MIN_CALL_FUNCTION2_OUT <=? cs_ver ccs);
+      (match goal with |- match send_or_remove ?m ?d ?x ?fr with _ => _ end =>
+         unfold send_or_remove, send; destruct (conns (ms m) !! d) as [dcs|]; [|exact I];
+         destruct (cs_alive dcs); left; reflexivity end).
+  - unfold send. cbn [ms m_init]. destruct (conns s !! c) as [cs|]; [|exact I].
+    destruct (cs_alive cs); [|reflexivity]. right. split; [|reflexivity].
+    cbn. unfold nrep. cbn. destruct (is_rep _ _ _); cbn; lia.
+Qed.
+
+Lemma handle_call_post c0 s0 s c x f bs :
+  (match x with CallFunction _ _ _ _ | CallFunction2 _ _ _ _ _ => True | _ => False end) ->
+  match handle (m_init s) c x f bs with
+  | Done m => nrep c0 s0 (mo m) = 0%nat \/ ((nrep c0 s0 (mo m) <= 1)%nat /\ mw m = work0)
+  | Fail m => nrep c0 s0 (mo m) = 0%nat
+  | Panic _ => True
+  end.
+Proof.
+  intros Hx. unfold handle. cbn [ms m_init]. destruct (conns s !! c) as [cs|] eqn:Hc; [|left; reflexivity].
+  destruct x; try contradiction.
+  - apply call_impl_post.
+  - unfold gate, ver_of. cbn [ms m_init]. rewrite Hc. cbn [fmap option_fmap option_map].
+    destruct (cs_ver cs <? MIN_CALL_FUNCTION2); [reflexivity|]. apply call_impl_post.
+Qed.
+
+(* C02_at_most_once: in one step of the broker, whatever the event, a connection receives at most
+   one reply with a given serial.  No hypothesis is needed: pending serials of a connection are
+   distinct because they are the keys of a finite map. *)
+Theorem at_most_once s e f bs s' o c0 s0 :
+  step s e f bs = Done (s', o) -> (nrep c0 s0 o <= 1)%nat.
+Proof.
+  intros Hstep. apply step_Done in Hstep as (m & m' & Hh & Hs & -> & ->).
+  assert (Hpost : Pot c0 s0 1 m \/ ((nrep c0 s0 (mo m) <= 1)%nat /\ mw m = work0)).
+  { assert (Hinit : forall s1, mo s1 = [] -> Pot c0 s0 1 s1).
+    { intros s1 E. unfold Pot, weight. rewrite E. pose proof (pend_le_1 c0 s0 (ms s1)). cbn. lia. }
+    destruct e; cbn [step_handler] in Hh.
+    - destruct (conns s !! c); [discriminate|]. injection Hh as <-. left. apply Hinit. reflexivity.
+    - injection Hh as <-. left. apply Hinit. reflexivity.
+    - fold (m_init s) in Hh.
+      assert (Hcase : (match m0 with CallFunction _ _ _ _ | CallFunction2 _ _ _ _ _ => True | _ => False end) \/
+                      (match m0 with CallFunction _ _ _ _ | CallFunction2 _ _ _ _ _ => False | _ => True end))
+        by (destruct m0; auto).
+      destruct Hcase as [Hcall|Hother].
+      + pose proof (handle_call_post c0 s0 s c m0 f bs Hcall) as Hp.
+        destruct (handle (m_init s) c m0 f bs) as [m1|m1|]; try discriminate; injection Hh as <-.
+        * destruct Hp as [Hp|Hp]; [left|right; exact Hp].
+          unfold Pot, weight. rewrite Hp. pose proof (pend_le_1 c0 s0 (ms m1)). lia.
+        * left. change (Pot c0 s0 1 m1). unfold Pot, weight. rewrite Hp. pose proof (pend_le_1 c0 s0 (ms m1)). lia.
+      + pose proof (handle_pot c0 s0 1 (m_init s) c m0 f bs Hother (Hinit (m_init s) eq_refl)) as Hp.
+        destruct (handle (m_init s) c m0 f bs) as [m1|m1|]; try discriminate; injection Hh as <-; left; exact Hp.
+    - injection Hh as <-. left. apply Hinit. cbn.
+      generalize (map_to_list (conns s)). intros l. induction l as [|p l IH]; [reflexivity|exact IH].
+    - injection Hh as <-. left. apply Hinit. reflexivity.
+    - injection Hh as <-. left. apply Hinit. reflexivity.
+    - injection Hh as <-. left. apply Hinit. destruct (conns s !! c); reflexivity. }
+  destruct Hpost as [Hp|[Hn Hw]].
+  - pose proof (settle_pot c0 s0 1 (fuel_for (ms m)) m Hp) as Hsp.
+    destruct Hs as [Hs|Hs]; rewrite Hs in Hsp; cbn in Hsp; unfold Pot, weight in Hsp; lia.
+  - rewrite settle_idle in Hs by exact Hw. destruct Hs as [Hs|Hs]; [|discriminate]. injection Hs as <-. exact Hn.
+Qed.
+
+(* the same in the vocabulary of Run.v *)
+Corollary at_most_once_outs_to s e f bs s' o c serial :
+  step s e f bs = Done (s', o) -> (length (List.filter (is_reply_to serial) (outs_to c o)) <= 1)%nat.
+Proof. intros H. rewrite <- nrep_outs_to. eapply at_most_once. exact H. Qed.
